@@ -1517,7 +1517,7 @@ class VerificationServiceClass(ServiceClass):
                     "'evt.EVT_C_ECHO'"
                 )
 
-        except Exception as ex:
+        except BaseException as ex:
             LOGGER.error(
                 "Exception in the handler bound to 'evt.EVT_C_ECHO', "
                 "responding with a default 'Status' value of 0x0000 "
@@ -2614,7 +2614,7 @@ class RelevantPatientInformationQueryServiceClass(ServiceClass):
             LOGGER.info("Find SCP Response: 0x0000 (Success)")
             self.dimse.send_msg(rsp, cx_id)
             return
-        except Exception as ex:
+        except BaseException as ex:
             setattr(self.assoc, "abort", self.assoc._abort_blocking)
             LOGGER.error("Exception in handler bound to 'evt.EVT_C_FIND'")
             LOGGER.exception(ex)
